@@ -33,9 +33,28 @@ Definition conv_dir1_m (filt : list pt) (files : list (K * sedm)) (par_names : l
   let out := gather crow dcrow rows order in
   if list_eq_dec Z.eq_dec (map cr_name out) par_names then Some out else None.
 
-(* cube format: names must equal the parameter-table names, rows stay in cube order *)
+(* cube format: the cube and the parameter table must hold the same names (in any order, since the repair F56: the code compares
+   the sorted lists); rows stay in cube order *)
+Definition same_multiset (a b : list K) : bool :=
+  forallb (fun n => Nat.eqb (count_occ Z.eq_dec a n) (count_occ Z.eq_dec b n)) (a ++ b).
+
+Lemma same_multiset_perm a b : same_multiset a b = true <-> Permutation a b.
+Proof.
+  unfold same_multiset. split.
+  - intro H. apply (proj2 (Permutation_count_occ Z.eq_dec a b)). intro x.
+    rewrite forallb_forall in H.
+    destruct (in_dec Z.eq_dec x (a ++ b)) as [I|I].
+    + apply Nat.eqb_eq. exact (H x I).
+    + assert (~ In x a) by (intro X; apply I, in_or_app; left; exact X).
+      assert (~ In x b) by (intro X; apply I, in_or_app; right; exact X).
+      rewrite (proj1 (count_occ_not_In Z.eq_dec a x)) by assumption.
+      rewrite (proj1 (count_occ_not_In Z.eq_dec b x)) by assumption. reflexivity.
+  - intro P. apply forallb_forall. intros x _. apply Nat.eqb_eq.
+    apply (proj1 (Permutation_count_occ Z.eq_dec a b) P).
+Qed.
+
 Definition conv_dir2_m (filt : list pt) (cube : list sedm) (par_names : list K) : option (list crow) :=
-  if list_eq_dec Z.eq_dec (map sd_name cube) par_names then Some (map (conv_sed filt) cube) else None.
+  if same_multiset (map sd_name cube) par_names then Some (map (conv_sed filt) cube) else None.
 
 Lemma conv_sed_name filt s : cr_name (conv_sed filt s) = sd_name s.
 Proof. unfold conv_sed, read_nu_order. destruct (nu_decreasing (sd_nu s)); reflexivity. Qed.
@@ -113,13 +132,21 @@ Proof.
   now rewrite E.
 Qed.
 
-(* cube format: rows in cube order, row i computed from cube slice i *)
+(* cube format: rows in cube order, row i computed from cube slice i; the parameter table may list the same models in any order *)
 Theorem rows_v2 filt cube par_names out : conv_dir2_m filt cube par_names = Some out ->
-  map cr_name out = par_names /\ out = map (conv_sed filt) cube.
+  map cr_name out = map sd_name cube /\ Permutation (map cr_name out) par_names /\ out = map (conv_sed filt) cube.
 Proof.
-  unfold conv_dir2_m. destruct (list_eq_dec Z.eq_dec _ par_names) as [E|E]; [|discriminate].
-  intros H. inversion H; subst. split; [|reflexivity]. rewrite map_map.
-  rewrite (map_ext _ sd_name) by (intros; apply conv_sed_name). reflexivity.
+  unfold conv_dir2_m. destruct (same_multiset (map sd_name cube) par_names) eqn:E; [|discriminate].
+  intros H. inversion H; subst.
+  assert (N : map cr_name (map (conv_sed filt) cube) = map sd_name cube).
+  { rewrite map_map. apply map_ext. intros; apply conv_sed_name. }
+  split; [exact N|]. split; [|reflexivity]. rewrite N. apply same_multiset_perm. exact E.
+Qed.
+
+Theorem rows_v2_accepts filt cube par_names : Permutation (map sd_name cube) par_names ->
+  conv_dir2_m filt cube par_names = Some (map (conv_sed filt) cube).
+Proof.
+  intro P. unfold conv_dir2_m. rewrite (proj2 (same_multiset_perm _ _) P). reflexivity.
 Qed.
 
 (* both formats built from the same SEDs give the same row for every model name *)
@@ -134,7 +161,7 @@ Proof.
   assert (Pc : Permutation (map (fun f => snd f) files) cube) by (destruct Hc as [<-|Hc]; [reflexivity|exact Hc]).
   destruct (rows_v1 filt files par_names N P) as (o & Ho & _ & Hrows). rewrite H1 in Ho. inversion Ho; subst o.
   destruct (Hrows r1 I1) as (f & Hf & ->).
-  destruct (rows_v2 filt cube par_names out2 H2) as [_ ->].
+  destruct (rows_v2 filt cube par_names out2 H2) as (_ & _ & ->).
   apply in_map_iff in I2. destruct I2 as (s & <- & Hs).
   rewrite !conv_sed_name in En.
   assert (Hin : In (snd f) cube) by (eapply Permutation_in; [exact Pc|apply in_map_iff; exists f; split; [reflexivity|exact Hf]]).
